@@ -84,6 +84,11 @@ CHECKS = {
          'family circuits x all {0,1,R,F} stimuli with times {1,3} x delay plans x capacities x all 16 combinations of c_reuse/strip_forks on both simulators; port values, '
          'hazard-freeness of plain constants and (without reuse) every internal line are compared',
          'trusted: waveform decoder; LogicSim(m=8) itself is tied to the algebra by C02', 'DESIGN.md section 4 C05'),
+
+ 'C06': ('exploration', 'bounded exhaustive differential enumeration over the configuration lattice',
+         'family circuits x all {0,1,R,F} stimuli x delay plans x capacities, each run under every combination of c_reuse/strip_forks/CPU-vs-GPU-kernel path, four lane allocations, '
+         'lane permutations, c_prop(sims=k), global and per-lane delay dataset selection and a_ctrl, and compared bit for bit with a baseline run; LogicSim options for m = 2/4/8 on all stimuli',
+         'trusted: baseline configuration is tied to the reference by C01-C03; GPU path = kernels under MockCuda', 'DESIGN.md section 4 C06'),
 }
 
 NOT_YET = 'check not built yet in this session (see DESIGN.md build order); will be claimed once its exhaustive check exists'
